@@ -606,7 +606,7 @@ class InstrMixin:
         x = self.val(ctx, ins['x'])
         at = ins['asserted']
         if self.ty.kind(at) == 'interface':
-            ok = T.and_(T.not_(T.eq(x, T.ZERO)), T.fresh('implements', T.BOOL))
+            ok = T.and_(T.not_(T.eq(x, T.ZERO)), self.uf_implements(x, at))
             v = x
         else:
             ok = T.and_(T.not_(T.eq(x, T.ZERO)), T.eq(self.uf_dyn(x), T.I(self.ty.type_id(at))))
@@ -681,10 +681,50 @@ class InstrMixin:
         self.on_send(ctx, ins, st, self.val(ctx, ins['chan']), self.val(ctx, ins['x']), guard=T.TRUE)
 
     def on_send(self, ctx, ins, st, ch, v, guard):
-        hooks = getattr(self, 'send_hooks', None)
-        if hooks:
-            for h in hooks:
-                h(ctx, ins, st, ch, v, guard)
+        ps = self.chanspecs.get(ch) if is_term(ch) else None
+        if ps is None:
+            return
+        et = None
+        argn = (ps.args or ['v'])[0]
+        # element type of the channel: from the instruction
+        if ins['op'] == 'Send':
+            ct = None
+        names = {argn: (v, self.chan_elem_type(ctx, ins, ch))}
+        if guard == T.TRUE:
+            self.apply_contract_env(ctx, ins, st, ps, names, [], [], ps.name)
+        else:
+            s1 = st.copy()
+            s1.pc = T.and_(st.pc, guard)
+            self.apply_contract_env(ctx, ins, s1, ps, names, [], [], ps.name)
+            s2 = st.copy()
+            s2.pc = T.and_(st.pc, T.not_(guard))
+            m, _ = self.merge([(0, s1), (1, s2)])
+            st.pc, st.cells, st.heap, st.volatile = m.pc, m.cells, m.heap, m.volatile
+
+    def chan_elem_type(self, ctx, ins, ch):
+        if ins['op'] == 'Send':
+            # type of the channel operand is not carried on Send; find the defining instruction's type
+            op = ins['chan']
+            t = self.operand_type(ctx, op)
+            return self.ty.elem(t) if t else None
+        for s_ in ins.get('states', []):
+            if s_['dir'] == 'send':
+                return self.ty.elem(s_['chantype'])
+        return None
+
+    def operand_type(self, ctx, op):
+        if isinstance(op, str):
+            for b in ctx['fn']['blocks']:
+                for i2 in b['instrs']:
+                    if i2.get('id') == op:
+                        return i2.get('type')
+        if isinstance(op, dict):
+            if 'p' in op:
+                for p in ctx['fn']['params']:
+                    if p['name'] == op['p']:
+                        return p['type']
+            return op.get('t')
+        return None
 
     def i_Defer(self, ctx, ins, st):
         call = ins['call']
